@@ -343,7 +343,7 @@ func init() {
 		Max    int    `json:"max"`
 		Actors int    `json:"actors"`
 	}
-	vh.AddPart("C09", "schedules", "sim", vh.Opts{Shards: 12, TimeoutS: 300},
+	vh.AddPart("C09", "schedules", "sim", vh.Opts{NoConfirm: true, Shards: 12, TimeoutS: 300},
 		func(e *vh.Env) []c09Sched {
 			var cs []c09Sched
 			for _, max := range []int{1, 2, 3} {
